@@ -20,12 +20,12 @@ import (
 // C19 - text syntax round trips.
 
 type C19Case struct {
-	Kind string `json:"kind"` // duration | timestamp | layout | method | durstr | tsstr | liststr
-	Dur  int32  `json:"dur,omitempty"`
-	TS   uint32 `json:"ts,omitempty"`
+	Kind string  `json:"kind"` // duration | timestamp | layout | method | durstr | tsstr | liststr
+	Dur  int32   `json:"dur,omitempty"`
+	TS   uint32  `json:"ts,omitempty"`
 	L    *Layout `json:"layout,omitempty"`
-	M    int    `json:"method,omitempty"`
-	S    string `json:"s,omitempty"`
+	M    int     `json:"method,omitempty"`
+	S    string  `json:"s,omitempty"`
 }
 
 var unitSeconds = map[byte]int64{'s': 1, 'm': 60, 'h': 3600, 'd': 86400, 'w': 7 * 86400, 'y': 365 * 86400}
@@ -671,8 +671,8 @@ func exhaustiveC19(ev *Evid) (C19Case, []Finding) {
 
 func TestC19(t *testing.T) {
 	p := Property[C19Case]{
-		ID: "C19",
-		Rule: "quick: rapid-generated durations (unit multiples +-1, near 2^31, random), timestamps (edges + random), valid layouts (small and hour..year scale; also through the -retentions / -x-files-factor / -agg-method / -from flag values), method values -1..10 and names, and strings: boundary numerals x units, random strings over [0-9smhdwy:,+-]{0,7}, signed numerals, overflow boundaries per unit, timestamp strings with one malformed field/zone/separator, retention lists printed by the harness with arbitrary unit choices and then mutated. Oracles: parse(print(x)) == x; printed text evaluated independently (number x unit table, big integers; own days-from-civil calendar) equals x; every accepted string has exactly the independently computed meaning and fits 31 bits; malformed classes are rejected. Non-trivial (quick): durations not a multiple of 60 or within +-1 of a unit multiple or near 2^31; all string cases. thorough adds the exhaustive sub-domains: all 2^31 durations, all 2^32 timestamps, all strings over the alphabet up to length 5 (exhaustive=true refers to those).",
+		ID:          "C19",
+		Rule:        "quick: rapid-generated durations (unit multiples +-1, near 2^31, random), timestamps (edges + random), valid layouts (small and hour..year scale; also through the -retentions / -x-files-factor / -agg-method / -from flag values), method values -1..10 and names, and strings: boundary numerals x units, random strings over [0-9smhdwy:,+-]{0,7}, signed numerals, overflow boundaries per unit, timestamp strings with one malformed field/zone/separator, retention lists printed by the harness with arbitrary unit choices and then mutated. Oracles: parse(print(x)) == x; printed text evaluated independently (number x unit table, big integers; own days-from-civil calendar) equals x; every accepted string has exactly the independently computed meaning and fits 31 bits; malformed classes are rejected. Non-trivial (quick): durations not a multiple of 60 or within +-1 of a unit multiple or near 2^31; all string cases. thorough adds the exhaustive sub-domains: all 2^31 durations, all 2^32 timestamps, all strings over the alphabet up to length 5 (exhaustive=true refers to those).",
 		Assumptions: []string{"timestamp strings outside years 1970-2106 are not generated (Z9)", "numerals with redundant leading zeros and fractional seconds: no verdict asserted"},
 		Gen:         genC19,
 		Run:         runC19,
